@@ -4,6 +4,7 @@ Every partial operation of the Rust sources is inventoried by the translator (Ge
 the model either carries it as an explicit `.panic site` outcome or the site is locally guarded.
 -/
 import O2oModel.Expand
+import O2oModel.Props.C15
 namespace O2o
 
 inductive Disposition
@@ -146,5 +147,26 @@ theorem C16_outcome_cases (b : Back) (node : RawInput) :
   | libErr => exact Or.inr (Or.inr (Or.inl rfl))
   | panic s => exact Or.inr (Or.inr (Or.inr (Or.inl ⟨s, rfl⟩)))
   | unsupported w => exact Or.inr (Or.inr (Or.inr (Or.inr ⟨w, rfl⟩)))
+
+/-- C16 (sites `err_ty.unwrap()` in the three fallible skeletons): an input that validation accepts never reaches them -/
+theorem C16_err_ty_sites_unreachable (input : DataType) (ctx : ImplContext)
+    (hv : validate input = []) (hc : ctx ∈ implContexts input) (hf : ctx.fallible = true) :
+    ∃ ts, errTyPath ctx = .ok ts := by
+  unfold implContexts at hc
+  simp only [List.mem_flatMap, List.mem_map] at hc
+  obtain ⟨⟨k, f⟩, hkf, sa, hsa, rfl⟩ := hc
+  simp only at hf
+  subst hf
+  cases herr : sa.errTy with
+  | some t =>
+    refine ⟨t.path ++ (match t.generics with | some g => g.toTS | none => []), ?_⟩
+    simp only [errTyPath, herr]
+    rfl
+  | none =>
+    have hk : k ∈ validateKinds := by
+      cases k <;> simp [validateKinds]
+    have := C15_complete_R3a_validate input k sa hk hsa herr
+    rw [hv] at this
+    cases this
 
 end O2o
